@@ -19,6 +19,18 @@ pub struct TraitFn {
 }
 
 impl TraitFn {
+    /// The `cfg` attributes of a function of an entraited module or impl block are mirrored
+    /// on the generated trait method and on the delegating method,
+    /// so that a function that is configured out does not leave a dangling method behind.
+    pub fn with_cfg_attrs_of(mut self, fn_attrs: &[syn::Attribute]) -> Self {
+        self.attrs = fn_attrs
+            .iter()
+            .filter(|attr| attr.path().is_ident("cfg"))
+            .cloned()
+            .collect();
+        self
+    }
+
     pub fn sig(&self) -> &syn::Signature {
         &self.entrait_sig.sig
     }
